@@ -268,6 +268,54 @@ def run(tier: str, seed: int) -> int:
                 uh = np.abs(np.asarray(ex.fft(jnp.asarray(u))))[0]
                 if float(np.max(uh[cutoff + 1:], initial=0.0)) > 1e-9 * (1 + float(np.max(uh))) or abs(float(np.mean(u)) - 1.5) > 1e-9:
                     run_.violation({"kind": "cutoff", "gen": "RandomSineWaves1d", "D": 1, "mode": "band/mean"}, {"N": N, "cutoff": cutoff})
+    # ---- the normalisation options are statements about the RETURNED array, whatever the grid resolves: unit standard deviation / unit maximum on
+    # grids that are coarse for the generator's cutoff (N <= 2 cutoff), for hand-built sine sums with repeated or non-integer wavenumbers
+    mk_norm = [("RandomSineWaves1d", 1, lambda kw: ex.ic.RandomSineWaves1d(1, domain_extent=3.0, cutoff=5, **kw)),
+               ("RandomTruncatedFourierSeries", 1, lambda kw: ex.ic.RandomTruncatedFourierSeries(1, cutoff=5, **kw)),
+               ("RandomTruncatedFourierSeries", 2, lambda kw: ex.ic.RandomTruncatedFourierSeries(2, cutoff=4, **kw)),
+               ("GaussianRandomField", 1, lambda kw: ex.ic.GaussianRandomField(1, **kw)),
+               ("DiffusedNoise", 2, lambda kw: ex.ic.DiffusedNoise(2, **kw))]
+    for gname, D, mk in mk_norm:
+        for N in (7, 9, 10, 33):
+            for flag in ("std_one", "max_one"):
+                key = jax.random.PRNGKey(int(rng.integers(0, 2 ** 31)))
+                try:
+                    zm = gname in ("GaussianRandomField", "DiffusedNoise")
+                    u = np.asarray(mk(dict({flag: True}, **({"zero_mean": True} if zm else {})))(N, key=key), dtype=np.float64)
+                except Exception as e:  # noqa: BLE001
+                    run_.violation({"kind": "normalisation", "gen": gname, "D": D, "mode": "raised"}, {"N": N, "flag": flag, "exception": repr(e)[:200]})
+                    continue
+                run_.evaluations += 1
+                run_.case(("normalisation-coarse", gname, D, N, flag))
+                val = float(np.std(u)) if flag == "std_one" else float(np.max(np.abs(u)))
+                if not np.all(np.isfinite(u)) or abs(val - 1.0) > 1e-5 or (zm and abs(float(np.mean(u))) > 1e-5):
+                    run_.violation({"kind": "normalisation", "gen": gname, "D": D, "mode": flag}, {"N": N, "measured": val, "mean": float(np.mean(u))})
+    for wn in ((1.0, 3.0), (2.0, 2.0), (1.5, 2.0), (5.0, 6.0)):
+        for N in (8, 11, 16):
+            for flag in ("std_one", "max_one"):
+                sw = ex.ic.SineWaves1d(2.0, (0.7, -1.2), wn, (0.2, 1.0), offset=0.0, **{flag: True})
+                u = np.asarray(sw(jnp.asarray(ex.make_grid(1, 2.0, N))), dtype=np.float64)
+                run_.evaluations += 1
+                run_.case(("normalisation-sines", wn, N, flag))
+                val = float(np.std(u)) if flag == "std_one" else float(np.max(np.abs(u)))
+                if abs(val - 1.0) > 1e-5:
+                    run_.violation({"kind": "normalisation", "gen": "SineWaves1d", "D": 1, "mode": flag}, {"N": N, "wavenumbers": list(wn), "measured": val})
+    # ---- clamping is an affine map of the draw onto [lo, hi] whatever the magnitude of the draw: wrapped generators scaled over twenty decades
+    for gname, D, mk in (("RandomTruncatedFourierSeries", 1, lambda: ex.ic.RandomTruncatedFourierSeries(1, cutoff=3)),
+                         ("GaussianRandomField", 2, lambda: ex.ic.GaussianRandomField(2))):
+        for sc in (1.0, 1e-9, -1e-12, 1e8, -2.5e-7):
+            N = 12
+            key = jax.random.PRNGKey(int(rng.integers(0, 2 ** 31)))
+            raw = np.asarray(mk()(N, key=key), dtype=np.float64)
+            g = ex.ic.ClampingICGenerator(ex.ic.ScaledICGenerator(mk(), sc), limits=(-0.5, 2.0))
+            u = np.asarray(g(N, key=key), dtype=np.float64)
+            run_.evaluations += 1
+            run_.case(("clamp-scale", gname, D, sc))
+            aff = (raw - raw.min()) / (raw.max() - raw.min()) if sc > 0 else (raw.max() - raw) / (raw.max() - raw.min())
+            want = -0.5 + 2.5 * aff
+            if not np.all(np.isfinite(u)) or abs(u.min() + 0.5) > 1e-5 or abs(u.max() - 2.0) > 1e-5 or float(np.max(np.abs(u - want))) > 2e-5:
+                run_.violation({"kind": "clamp", "gen": gname, "D": D, "mode": "limits not reached / not the affine image of the draw"},
+                               {"scale": sc, "min": float(u.min()), "max": float(u.max())})
     # ---- directly nested scaling wrappers (the quick model nests one wrapper): sampled form, function form and factor product agree
     for gname, mk in (("RandomSineWaves1d", lambda: ex.ic.RandomSineWaves1d(1, domain_extent=2.0, cutoff=3)),
                       ("RandomGaussianBlobs", lambda: ex.ic.RandomGaussianBlobs(2, domain_extent=2.0, num_blobs=2)),
